@@ -352,8 +352,8 @@ func (w *c05World) arm(table, op string, n int) error {
 
 var c05TouchRe = regexp.MustCompile("(?i)^\\s*(INSERT INTO|UPDATE|DELETE FROM)\\s+[`\"]?([A-Za-z0-9_]+)[`\"]?")
 
-// c05Touched: (table, op) pairs written by the statements of a fault-free run, in first-use order, with the
-// number of statements of that pair
+// c05Touched: (table, op) pairs written by the statements of a fault-free run, in first-use order, with an
+// estimate of the rows written per pair (value tuples of the INSERTs; one per UPDATE / DELETE statement)
 func c05Touched(evs []Event) (pairs [][2]string, count map[[2]string]int) {
 	count = map[[2]string]int{}
 	for _, e := range evs {
@@ -367,6 +367,56 @@ func c05Touched(evs []Event) (pairs [][2]string, count map[[2]string]int) {
 			pairs = append(pairs, p)
 		}
 		count[p]++
+		if op == "insert" {
+			count[p] += strings.Count(e.SQL, "),(")
+		}
 	}
 	return
+}
+
+// ---- cheap reset of a world ---------------------------------------------------------------------------------------
+//
+// A run that legitimately changed the database (cancellation that came too late, SkipDefaultTransaction, a stage after
+// the statement, a known finding) is undone by copying every table back from a backup taken when the world was built
+// (rows and AUTOINCREMENT counters), instead of building a new world.
+
+func (w *c05World) quiet() func() {
+	w.rec.mu.Lock()
+	off := w.rec.Off
+	w.rec.Off = true
+	w.rec.mu.Unlock()
+	return func() { w.rec.mu.Lock(); w.rec.Off = off; w.rec.mu.Unlock() }
+}
+
+func (w *c05World) snapshot() {
+	defer w.quiet()()
+	raw := w.db.Session(&gorm.Session{NewDB: true, SkipHooks: true, Context: context.Background()})
+	for _, t := range append([]string{"sqlite_sequence"}, w.tables...) {
+		if err := raw.Exec("CREATE TABLE c05bk_" + t + " AS SELECT * FROM " + t).Error; err != nil {
+			panic(fmt.Sprintf("c05 snapshot of %s: %v", t, err))
+		}
+	}
+	w.snap = true
+}
+
+func (w *c05World) restore() error {
+	if !w.snap {
+		return fmt.Errorf("no snapshot")
+	}
+	defer w.quiet()()
+	raw := w.db.Session(&gorm.Session{NewDB: true, SkipHooks: true, Context: context.Background()})
+	return raw.Connection(func(tx *gorm.DB) error {
+		if err := tx.Exec("UPDATE " + c05TripTable + " SET armed = 0, n = 0 WHERE armed <> 0 OR n <> 0").Error; err != nil {
+			return err
+		}
+		for _, t := range append(append([]string{}, w.tables...), "sqlite_sequence") {
+			if err := tx.Exec("DELETE FROM " + t).Error; err != nil {
+				return err
+			}
+			if err := tx.Exec("INSERT INTO " + t + " SELECT * FROM c05bk_" + t).Error; err != nil {
+				return err
+			}
+		}
+		return nil
+	})
 }
